@@ -276,7 +276,8 @@ def nad_nuclear_step(ctx, thermostat):
             ctx.prove_eq("%s.v'[%d]@p%d" % (tag, c, p.path_id), mol.velocities.a[0, 0, c], vs.a[0, 0, c], pc=p.pc)
             ctx.prove_eq("%s.acc'[%d]@p%d" % (tag, c, p.path_id), mol.acc.a[0, 0, c], as_.a[0, 0, c], pc=p.pc)
             ctx.prove_eq("%s.electronic-update-sees-the-completed-nuclear-step[%d]@p%d" % (tag, c, p.path_id), sh._v_at_electronic_update.a[0, 0, c], vs.a[0, 0, c], pc=p.pc)
-        ctx.prove("%s.one-force-evaluation-then-propagation-then-hop-handling@p%d" % (tag, p.path_id), E.const(seq == ["force", "propagate", "electronic-update"]))
+        ctx.prove("%s.hop-handling-comes-after-the-force-evaluation-and-the-propagation@p%d" % (tag, p.path_id),
+                  E.const("electronic-update" in seq and "force" in seq and "propagate" in seq and seq.index("electronic-update") > max(i_ for i_, q in enumerate(seq) if q in ("force", "propagate"))))
     ctx.assume_note("A6: force is an uninterpreted function of the coordinates; one trajectory, one atom; tdc method hamiltonian_fd")
 
 
